@@ -476,7 +476,7 @@ class ElementWalker(object):
 
         if base_link:
             # lxml returns codebase as inline
-            link_type = element.attrib.get(base_link)
+            link_type = identify_link_type(base_link)
             yield LinkInfo(
                 element=element, tag=element.tag, attrib='codebase',
                 link=base_link,
